@@ -1,3 +1,4 @@
+// place in: modules/l4tls/ together with tls_hello_across_records_test.go (whose helpers it uses)
 package l4tls
 
 import (
